@@ -460,8 +460,8 @@ def run(run):
     lap('kernels')
     # cap-sized hash containers are too slow for the (quadratic) model in the quick tier: oracle only
     extra = [] if T else [set(range(MAXA)), {i: None for i in range(MAXA)}, set(range(MAXA - 1)), {str(i): i for i in range(MAXA)}]
+    run._lap = lap
     oracle(run, reg, vals + extra, bads, d18)
-    lap('oracle')
     SL.registry_unit(run, 400 if run.thorough() else 80)
     run.rules.append(RULE)
 
@@ -553,6 +553,7 @@ def oracle(run, reg, vals, bads, d18):
     """the property on the implementation alone"""
     r = run.rng
     S = SL.S
+    state0 = SL.process_state()
 
     def enc(v):
         st = io.BytesIO()
@@ -667,3 +668,260 @@ def oracle(run, reg, vals, bads, d18):
             report("decode-raises", {"value": srepr(v)[:300], "error": err, "cls": "tuple-in-key"},
                    "deserialize_map/deserialize_set")
     run.sample({"oracle": "roundtrip", "value": srepr(good[-1][0])[:200], "encoded_len": len(good[-1][1])})
+    # nothing process-wide changed while all of the above was encoded, decoded and refused
+    d = SL.state_diff(state0, SL.process_state())
+    if d:
+        report("process-state-changed", {"api": "serialize_value/deserialize_value/dumpb/loadb (all oracle phases)", "changed": d[:6]},
+               "serializable.py")
+    lap = getattr(run, "_lap", lambda name: None)
+    lap("oracle")
+    api_oracle(run, good)
+    lap("oracle-entry-points")
+    persist_oracle(run, good)
+    lap("oracle-persistent")
+
+
+# ------------------------------------------------------------------ oracle, part 2: every public entry point of the
+# binary serializer, the default (process-wide) tables, and the process-level state
+#
+# Public encode/decode API of serializable.py and where this file exercises it:
+#   serialize_value / deserialize_value(registry=...)          oracle() above + units ser_enc / ser_dec
+#   deserialize_value / Serializable.loadb WITHOUT registry=   api_oracle: default-tables trip (the way applications call it)
+#   Serializable.dumpb / loadb (bytes and stream)              oracle() + api_oracle
+#   Serializable.serialize_header / serialize / deserialize    api_oracle (called directly)
+#   Serializable.dumpz / loadz (gzip framing)                  api_oracle
+#   Serializable.store_persistant / load_persistant,
+#   serialize_registry / deserialize_registry                  persist_oracle (also under OTHER id assignments)
+#   SerializableEnum: ==, !=, hash, name(), repr after a trip   api_oracle
+#   SerializableType.setRootId, class statements               unit reg_ops (serlib.registry_unit)
+#   Serializable.dumps / loads / toJson / fromJson             property C15
+# Process-level state read by all of them (SerializableType.registry / names / next_type_id / custom_id,
+# SerializableEnumType._enums, serialize_types / deserialize_types, the size caps, each class's type_id / _fields /
+# class-level defaults / enum member tables): must be exactly what it was after ANY encode or decode.
+
+def mk_header(pairs):
+    """a stored registry written independently of serialize_registry: count, then (type id, class name) as base values"""
+    st = io.BytesIO()
+    SL.S.serialize_value(st, len(pairs))
+    for t, n in pairs:
+        SL.S.serialize_value(st, t)
+        SL.S.serialize_value(st, n)
+    return st.getvalue()
+
+
+class _Reporter:
+    def __init__(self, run):
+        self.run = run
+        self.done = set()
+
+    def __call__(self, what, case, site):
+        key = (what, site)
+        if key in self.done:
+            return
+        self.done.add(key)
+        self.run.oracle_violation(what, case, site)
+
+
+def state_clause(report, guard, api, v, extra=None):
+    """the process-level state is what it was when `guard` was entered; otherwise report and put it back"""
+    d = guard.diff()
+    if d:
+        case = {"api": api, "value": srepr(v)[:300], "changed": d[:6]}
+        case.update(extra or {})
+        report("process-state-changed", case, "serializable.py:" + api)
+        guard.restore()
+        return False
+    return True
+
+
+def api_oracle(run, good):
+    """default-tables trips and the rarely used entry points, on values the registry= trip already handled"""
+    r = run.rng
+    S = SL.S
+    report = _Reporter(run)
+    fp0 = SL.table_fingerprint()
+    with SL.StateGuard() as guard:
+        items = good if run.thorough() else (good if len(good) <= 1500 else r.sample(good, 1500))
+        for v, b, want in items:
+            run.evaluations += 1
+            rest = bytes(r.getrandbits(8) for _ in range(r.choice([0, 3])))
+            # the process-wide tables (no registry=): what an application does
+            st = io.BytesIO(b + rest)
+            try:
+                x = S.deserialize_value(st)
+                if shape(x) != want or st.tell() != len(b):
+                    report("default-tables-roundtrip-differs", {"value": srepr(v)[:300], "decoded": srepr(x)[:300],
+                                                                "consumed": st.tell(), "encoded": len(b)}, "deserialize_value")
+            except Exception as e:      # noqa
+                report("decode-raises", {"value": srepr(v)[:300], "error": type(e).__name__, "cls": "default-tables"}, "deserialize_value")
+                x = None
+            if isinstance(v, SL.SerializableEnum) and x is not None:
+                try:
+                    ok = (x == v) and not (x != v) and hash(x) == hash(v) and x.name() == v.name() and repr(x) == repr(v) \
+                        and type(x) is type(v) and (x <= v) and (x >= v) and not (x < v) and not (x > v) and bool(x) == bool(v)
+                except Exception as e:  # noqa
+                    ok = False
+                if not ok:
+                    report("enum-not-equal-after-trip", {"value": srepr(v)[:200], "decoded": srepr(x)[:200]}, "SerializableEnum")
+            if isinstance(v, SL.Serializable):
+                api = None
+                try:
+                    api = "loadb"
+                    a = S.Serializable.loadb(b)
+                    st = io.BytesIO(b + rest)
+                    a2 = S.Serializable.loadb(st)
+                    bad = shape(a) != want or shape(a2) != want or st.tell() != len(b) or type(a) is not type(v)
+                    if not bad:
+                        api = "serialize_header/serialize/deserialize"
+                        st = io.BytesIO()
+                        v.serialize_header(st)
+                        v.serialize(st)
+                        o = type(v)()
+                        st2 = io.BytesIO(b[2:] + rest)
+                        o2 = o.deserialize(st2)
+                        bad = st.getvalue() != b or o2 is not o or shape(o) != want or st2.tell() != len(b) - 2
+                    if not bad and len(b) < 600:
+                        api = "dumpz/loadz"
+                        z = v.dumpz()
+                        bad = shape(S.Serializable.loadz(z)) != want or shape(S.Serializable.loadz(io.BytesIO(z))) != want
+                        run.count("gzip_trips")
+                    if bad:
+                        report("entry-point-roundtrip-differs", {"api": api, "value": srepr(v)[:300]}, "Serializable." + api)
+                except Exception as e:  # noqa
+                    report("entry-point-raises", {"api": api, "value": srepr(v)[:300], "error": type(e).__name__}, "Serializable.%s" % api)
+            if SL.table_fingerprint() != fp0:
+                state_clause(report, guard, "encode/decode entry points", v)
+        state_clause(report, guard, "encode/decode entry points (whole phase)", None)
+    run.count("default_table_trips", len(items))
+
+
+def persist_oracle(run, good):
+    """store_persistant / load_persistant / serialize_registry / deserialize_registry.
+    The stored stream carries the writer's id -> class-name table; the reader may live under ANOTHER id assignment
+    (classes defined in another order / another version).  Claims, from the property text: the object comes back equal,
+    exactly the record's bytes are consumed (records concatenate), and — decoding being a function of the bytes —
+    nothing process-wide changes: afterwards the ordinary dumpb/loadb trips of the very same classes still hold."""
+    r = run.rng
+    S = SL.S
+    T = S.SerializableType
+    report = _Reporter(run)
+    site = "Serializable.store_persistant/load_persistant"
+    objs = [g for g in good if isinstance(g[0], SL.Serializable) and len(g[1]) < 1500]
+    others = [g for g in good if not isinstance(g[0], SL.Serializable) and len(g[1]) < 600]
+    n = 3000 if run.thorough() else 260
+    prev = None
+    for i in range(n):
+        run.evaluations += 1
+        if i % 3 == 2 and others:
+            inner, _, _ = r.choice(others)
+            v = SL.VfHigh()
+            v.v = inner
+        else:
+            v = r.choice(objs)[0]
+        try:
+            want = shape(norm_py(v))
+        except NotInDomain:
+            continue
+        used = sorted(SL.ids_in(v))
+        kind, mapping = SL.gen_id_assignment(r, used)
+        if i < 4:
+            # fixed cases: the two classes of a nested value change places / a class takes the id of another one
+            v = SL.VfBag()
+            v.pt = SL.VfPoint()
+            v.pt.x, v.pt.y = -129, 2 ** 31
+            v.anyv = [SL.VfLow(), SL.VfColor(2), {SL.VfName("bee"): SL.VfPoint()}]
+            want = shape(norm_py(v))
+            used = sorted(SL.ids_in(v))
+            a, b = [(SL.VfBag, SL.VfPoint), (SL.VfPoint, SL.VfLow), (SL.VfColor, SL.VfName), (SL.VfPoint, SL.VfMix)][i]
+            kind, mapping = "swap-fixed", {a.type_id: b.type_id, b.type_id: a.type_id}
+        moved = {T.registry[t].__name__: [t, mapping.get(t, t)] for t in used if mapping.get(t, t) != t}
+        with SL.StateGuard() as guard:
+            # ---- the writer's process
+            with SL.IdAssignment(mapping):
+                there = [(t, c.__name__) for t, c in T.registry.items()]
+                werr = None
+                try:
+                    st = io.BytesIO()
+                    v.store_persistant(st)
+                    blob = st.getvalue()
+                    st = io.BytesIO()
+                    S.serialize_value(st, v)
+                    body = st.getvalue()
+                    st = io.BytesIO()
+                    S.serialize_registry(st)
+                    regbytes = st.getvalue()
+                except Exception as e:      # noqa
+                    werr = e
+            case = {"value": srepr(v)[:300], "ids": kind, "moved": moved}
+            if werr is not None:
+                report("encode-refuses-domain-value", dict(case, error=type(werr).__name__), site)
+                continue
+            if not state_clause(report, guard, "store_persistant", v, {"ids": kind}):
+                continue
+            # the stored table, read back with plain value decodes: count, then (int id, str name) for every class
+            st = io.BytesIO(blob)
+            try:
+                cnt = S.deserialize_value(st, registry={})
+                pairs = [(S.deserialize_value(st, registry={}), S.deserialize_value(st, registry={})) for _ in range(cnt)]
+                hdr_ok = pairs == there and all(type(t) is int and type(nm) is str for t, nm in pairs) \
+                    and blob[st.tell():] == body and blob[:st.tell()] == regbytes
+            except Exception:       # noqa
+                hdr_ok = False
+            if not hdr_ok:
+                report("stored-registry-wrong", dict(case, blob=blob[:400]), "serialize_registry")
+                continue
+            # ---- the reader's process (this one): variants of the stored table
+            variant = r.choice(["as-written", "as-written", "independent-header", "subset", "with-unknown-classes", "reordered"])
+            if variant == "as-written":
+                data = blob
+            else:
+                ps = list(there)
+                if variant == "subset":
+                    keep = set(mapping.get(t, t) for t in used)
+                    ps = [p for p in ps if p[0] in keep or r.random() < 0.3]
+                elif variant == "with-unknown-classes":
+                    free = [t for t in r.sample(range(128, 65536), 8) if t not in dict(ps)]
+                    for t in free[:3]:
+                        ps.insert(r.randrange(len(ps) + 1), (t, "VfNoSuchClass%d" % t))
+                elif variant == "reordered":
+                    r.shuffle(ps)
+                data = mk_header(ps) + body
+            case = dict(case, stored_table=variant, stream=data if len(data) <= 4000 else data[:4000])
+            rest = bytes(r.getrandbits(8) for _ in range(r.choice([0, 0, 2, 9])))
+            try:
+                x1 = S.Serializable.load_persistant(data)
+                st = io.BytesIO(data + rest)
+                x2 = S.Serializable.load_persistant(st)
+                pos = st.tell()
+            except Exception as e:      # noqa
+                report("decode-raises", dict(case, error=type(e).__name__, cls="persistent"), site)
+                state_clause(report, guard, "load_persistant", v, {"ids": kind, "moved": moved})
+                continue
+            if shape(x1) != want or shape(x2) != want:
+                report("roundtrip-differs", dict(case, decoded=srepr(x1)[:300]), site)
+            elif pos != len(data):
+                report("consumes-wrong-length", dict(case, encoded=len(data), consumed=pos), site)
+            elif prev is not None:
+                # records concatenate: two stored records load one after another from one stream
+                st = io.BytesIO(prev[0] + data)
+                try:
+                    y1 = S.Serializable.load_persistant(st)
+                    y2 = S.Serializable.load_persistant(st)
+                    if shape(y1) != prev[1] or shape(y2) != want or st.tell() != len(prev[0]) + len(data):
+                        report("concat-differs", dict(case, consumed=st.tell(), total=len(prev[0]) + len(data)), site)
+                except Exception as e:  # noqa
+                    report("concat-decode-raises", dict(case, error=type(e).__name__), site)
+            prev = (data, want)
+            # ---- afterwards: the ordinary trips of the same classes, through the process-wide tables
+            try:
+                w = S.Serializable.loadb(v.dumpb())
+                if shape(w) != want:
+                    report("roundtrip-differs-after-load_persistant", dict(case, decoded=srepr(w)[:300]), "Serializable.dumpb/loadb")
+            except Exception as e:      # noqa
+                report("roundtrip-differs-after-load_persistant", dict(case, error=type(e).__name__), "Serializable.dumpb/loadb")
+            state_clause(report, guard, "load_persistant", v, {"ids": kind, "moved": moved, "stored_table": variant,
+                                                               "stream": data if len(data) <= 4000 else data[:4000]})
+        run.count("persistent_%s" % kind)
+        if moved:
+            run.nt(("persist", kind, variant, tuple(sorted(moved)), srepr(v)[:200]))
+    run.count("persistent_trips", n)
